@@ -102,7 +102,11 @@ fn real_main() {
             std::process::exit(if bad == 0 { 0 } else { 1 });
         }
         "replay_opts" => {
-            let bad = fam_misc::replay_opts(args.extra.first().expect("replay file"), &mut out);
+            let bad = fam_misc::replay_opts(
+                args.extra.first().expect("replay file"),
+                args.extra.get(1).expect("path for the trace of the fixed generators"),
+                &mut out,
+            );
             out.flush();
             std::process::exit(if bad == 0 { 0 } else { 1 });
         }
@@ -124,6 +128,8 @@ fn real_main() {
         "c12" => fam_stream::run_c12(&mut out, &mut rng, args.thorough, only, !args.extra.iter().any(|x| x == "--no-interrupts")),
         #[cfg(all(feature = "easy", feature = "std"))]
         "c12big" => fam_stream::run_c12big(&mut out, &mut rng, only, args.thorough),
+        #[cfg(all(feature = "easy", feature = "std"))]
+        "manyreads" => fam_stream::run_many(&mut out, &mut rng, args.thorough, only),
         #[cfg(all(feature = "easy", feature = "std"))]
         "bigfile" => fam_stream::run_bigfile(&mut out, &mut rng, only, args.thorough),
         #[cfg(all(feature = "easy", feature = "std"))]
